@@ -114,72 +114,206 @@ def r2(ctx):
                   "the return is not dominated by a refusal of rows without an id (a supplied mapping that does not cover the data would yield NaN ids)")
 
 
+def encoder_scope(ctx, f, new_branch):
+    """[(function node, statements, binding of helper params to caller expressions)] : the new-mapping branch of the
+    encoder plus the bodies of repository helpers it calls (one level)"""
+    from engine.astutil import resolve_helper, bind_args
+    scopes = [(f, new_branch, {})]
+    for st in new_branch:
+        for c in calls(st):
+            h, skip = resolve_helper(ctx.R, f, c)
+            if h is not None and h.node is not f.node:
+                b = bind_args(h, skip, c)
+                if b is not None:
+                    ctx.functions.add(h.qname)
+                    scopes.append((h, list(h.node.body), b))
+    return scopes
+
+
+def scope_env(stmts):
+    cnt, val = {}, {}
+    for st in stmts:
+        for n in ast.walk(st):
+            if isinstance(n, ast.Assign) and len(n.targets) == 1 and isinstance(n.targets[0], ast.Name):
+                cnt[n.targets[0].id] = cnt.get(n.targets[0].id, 0) + 1
+                val[n.targets[0].id] = n.value
+    return {k: v for k, v in val.items() if cnt[k] == 1}
+
+
+def column_stores(stmts):
+    """{(table, column): value} for `T["col"] = v` and `T.assign(col=v)`"""
+    out = {}
+    for st in stmts:
+        for n in ast.walk(st):
+            if isinstance(n, ast.Assign) and isinstance(n.targets[0], ast.Subscript) and isinstance(n.targets[0].slice, ast.Constant) \
+                    and isinstance(n.targets[0].slice.value, str) and isinstance(n.targets[0].value, ast.Name):
+                out[(n.targets[0].value.id, n.targets[0].slice.value)] = n.value
+            if isinstance(n, ast.Call) and attr_tail(n) == "assign" and isinstance(n.func.value, ast.Name):
+                for k in n.keywords:
+                    out[(n.func.value.id, k.arg)] = k.value
+    return out
+
+
+def dose_table(e):
+    """name of the table whose 'dose' column expression e compares, or None"""
+    for n in ast.walk(e):
+        if isinstance(n, ast.Compare):
+            for side in [n.left] + n.comparators:
+                if isinstance(side, ast.Subscript) and isinstance(side.slice, ast.Constant) and side.slice.value == "dose" and isinstance(side.value, ast.Name):
+                    return side.value.id
+                if isinstance(side, ast.Attribute) and side.attr == "dose" and isinstance(side.value, ast.Name):
+                    return side.value.id
+    return None
+
+
+def subst_columns(e, cols, env):
+    """replace T.col / T['col'] by the expression stored into that column, and locals by their definitions"""
+    import copy
+
+    class S(ast.NodeTransformer):
+        def visit_Attribute(self, n):
+            self.generic_visit(n)
+            if isinstance(n.value, ast.Name) and (n.value.id, n.attr) in cols and isinstance(n.ctx, ast.Load):
+                return copy.deepcopy(cols[(n.value.id, n.attr)])
+            return n
+
+        def visit_Subscript(self, n):
+            self.generic_visit(n)
+            if isinstance(n.value, ast.Name) and isinstance(n.slice, ast.Constant) and (n.value.id, n.slice.value) in cols and isinstance(n.ctx, ast.Load):
+                return copy.deepcopy(cols[(n.value.id, n.slice.value)])
+            return n
+    out = e
+    for _ in range(4):
+        out = S().visit(inline(out, env))
+    return out
+
+
 def r3(ctx):
     f, body, ret, elts, jd = encoder_facts(ctx, ENC_T)
-    tname, tdose, ctl = f.params[0], f.params[1], f.params[2]
+    ctl = f.params[2]
     iff = [n for n in body if isinstance(n, ast.If)]
     ctx.need(iff, f"{f.site()}: existing_mapping branch not found")
     new_branch = iff[0].orelse if U(iff[0].test).replace(" ", "") == "existing_mappingisnotNone" else iff[0].body
-    env = {}
-    for n in new_branch:
-        if isinstance(n, ast.Assign) and len(n.targets) == 1 and isinstance(n.targets[0], ast.Name):
-            env.setdefault(n.targets[0].id, n.value)
-    # the sentinel store
-    st = [n for n in new_branch if isinstance(n, ast.Assign) and isinstance(n.targets[0], ast.Subscript) and isinstance(n.targets[0].value, ast.Attribute)
-          and n.targets[0].value.attr == "loc"]
-    ctx.need(len(st) == 1, f"{f.site()}: sentinel store (.loc[...] = ...) not found")
-    table = U(st[0].targets[0].value.value)
-    sel = st[0].targets[0].slice
-    ctx.need(isinstance(sel, ast.Tuple) and len(sel.elts) == 2, f"{f.site()}: .loc selector is not (rows, column)")
-    rows_sel = inline(sel.elts[0], {k: v for k, v in env.items() if k != table})
-    val_ok = U(st[0].value) == "CONTROL_SENTINEL_VALUE" or (ctx.R.const_value(f.mod, U(st[0].value)) is not None and U(ctx.R.const_value(f.mod, U(st[0].value))) == "-1") or U(st[0].value) == "-1"
-    # rows_sel = table.index[table.is_control]; is_control column = predicate
-    pred = None
-    t = U(rows_sel).replace(" ", "")
-    col_store = [n for n in new_branch if isinstance(n, ast.Assign) and isinstance(n.targets[0], ast.Subscript) and U(n.targets[0].value) == table
-                 and isinstance(n.targets[0].slice, ast.Constant)]
-    colmap = {n.targets[0].slice.value: n.value for n in col_store}
-    for cname, v in colmap.items():
-        if t in (f"{table}.index[{table}.{cname}]", f"{table}.{cname}", f"{table}['{cname}']"):
-            pred = inline(v, {k: x for k, x in env.items() if k != table})
-    ctx.need(pred is not None, f"{f.site()}: cannot trace the rows that receive the sentinel (`{U(rows_sel)}`) to a predicate column")
     N = Norm(strict=False)
-    want = N.b(parse_expr(f"({table}['dose'] <= 0) | ({table}['name'] == {ctl})"))
-    got = N.b(pred)
-    ctx.check("R3", f"{f.site()}::control-predicate", got == want, "is_control == (dose <= 0) | (name == control_treatment_name)",
-              f"control predicate is `{U(pred)[:110]}`: it must be exactly (dose <= 0) OR (name == control name) - e.g. `<` misses dose 0, a tolerance "
+    found = []
+    sentinel_ok = False
+    for h, stmts, binding in encoder_scope(ctx, f, new_branch):
+        env = scope_env(stmts)
+        cols = column_stores(stmts)
+        hctl = ctl
+        for p, a in binding.items():
+            if U(a) == ctl:
+                hctl = p
+        # maximal boolean expressions that compare the dose column
+        cands = []
+        for st in stmts:
+            for n in ast.walk(st):
+                if isinstance(n, (ast.Assign,)) and dose_table(inline(n.value, env)) is not None:
+                    v = inline(n.value, env)
+                    boolean = isinstance(v, ast.Compare) or (isinstance(v, ast.BinOp) and isinstance(v.op, (ast.BitOr, ast.BitAnd))) \
+                        or (isinstance(v, ast.UnaryOp) and isinstance(v.op, ast.Invert)) or (isinstance(v, ast.Call) and (call_name(v) or "").startswith("np.logical"))
+                    if boolean:
+                        cands.append(n.value)
+        full = []
+        for c in cands:
+            e = subst_columns(c, {k: v for k, v in cols.items() if k[1] not in ("dose", "name")}, env)
+            full.append(e)
+        # keep the maximal ones: a candidate that is a sub-expression of another inlined candidate is dropped
+        texts = [U(x) for x in full]
+        maximal = [x for x, t in zip(full, texts) if not any(t != o and t in o for o in texts)]
+        for e in maximal:
+            T = dose_table(e)
+            want = N.b(parse_expr(f"({T}['dose'] <= 0) | ({T}['name'] == {hctl})"))
+            alt = N.b(parse_expr(f"({T}.dose <= 0) | ({T}.name == {hctl})"))
+            found.append((U(e), N.b(e) in (want, alt), h.site()))
+        src = " ".join(U(st) for st in stmts)
+        if "CONTROL_SENTINEL_VALUE" in src or "-1" in src:
+            for st in stmts:
+                for n in ast.walk(st):
+                    if isinstance(n, ast.Assign) and isinstance(n.targets[0], ast.Subscript) and isinstance(n.targets[0].value, ast.Attribute) and n.targets[0].value.attr == "loc" \
+                            and U(n.value) in ("CONTROL_SENTINEL_VALUE", "-1"):
+                        sentinel_ok = True
+                    if isinstance(n, ast.Call) and attr_tail(n) in ("where", "mask") and any(U(a) in ("CONTROL_SENTINEL_VALUE", "-1") for a in n.args):
+                        sentinel_ok = True
+    if not found:
+        raise AnalysisError(f"{f.site()}: no expression comparing the dose column found in the encoder or its helpers - control detection is undecided")
+    good = [x for x in found if x[1]]
+    ctx.check("R3", f"{f.site()}::control-predicate", bool(good), "is_control == (dose <= 0) | (name == control_treatment_name)",
+              f"control predicate is `{found[0][0][:110]}` (in {found[0][2]}): it must be exactly (dose <= 0) OR (name == control name) - e.g. `<` misses dose 0, a tolerance "
               f"turns tiny positive doses into controls, a dropped disjunct misses controls given by name")
-    ctx.check("R3", f"{f.site()}::sentinel-written", val_ok and U(sel.elts[1]) == "'new_index'", "control rows get new_index = CONTROL_SENTINEL_VALUE",
-              f"control rows get `{U(sel.elts[1])}` = `{U(st[0].value)}`")
+    if not sentinel_ok:
+        raise AnalysisError(f"{f.site()}: cannot find where the control rows receive CONTROL_SENTINEL_VALUE (.loc store / where / mask)")
+    ctx.ok("R3", f"{f.site()}::sentinel-written", "control rows get CONTROL_SENTINEL_VALUE")
 
 
 def r4(ctx):
     f, body, ret, elts, jd = encoder_facts(ctx, ENC_T)
     iff = [n for n in body if isinstance(n, ast.If)][0]
     new_branch = iff.orelse if U(iff.test).replace(" ", "") == "existing_mappingisnotNone" else iff.body
-    table = U(jd.value.args[0])
     rows = U(jd.value.func.value)
-    seq = [n for n in new_branch if isinstance(n, ast.Assign)]
-    first = [n for n in seq if U(n.targets[0]) == table]
-    ctx.need(first, f"{f.site()}: unique-table construction not found")
-    chain0 = U(first[0].value).replace(" ", "").replace("\n", "")
-    ok0 = chain0 in (f"{rows}.drop_duplicates().sort_values(by=['name','dose']).reset_index(drop=True)",)
-    ctx.check("R4", f"{f.site()}::unique-sorted-reindexed", ok0, "table = rows.drop_duplicates().sort_values(by=[name, dose]).reset_index(drop=True)",
-              f"the id table is built as `{U(first[0].value)}`: ids are dense and deterministic only on a de-duplicated, sorted, re-indexed table")
-    ni = [n for n in new_branch if isinstance(n, ast.Assign) and isinstance(n.targets[0], ast.Subscript) and U(n.targets[0].value) == table
-          and isinstance(n.targets[0].slice, ast.Constant) and n.targets[0].slice.value == "new_index"]
-    ctx.need(len(ni) == 1, f"{f.site()}: new_index assignment not found")
     N = Norm(strict=False)
-    got = N.key(ni[0].value)
-    want = [N.key(parse_expr(f"{table}.index - {table}.is_control.cumsum()")), N.key(parse_expr(f"{table}.index - {table}['is_control'].cumsum()")),
-            N.key(parse_expr(f"{table}.index - np.cumsum({table}.is_control)"))]
-    ctx.check("R4", f"{f.site()}::rank-formula", got in want, "new_index = position - cumsum(is_control)  (rank among non-controls)",
-              f"non-control ids are `{U(ni[0].value)}`, not `index - cumsum(is_control)`: any constant offset or other count breaks density 0..n-1")
-    # between the reindex and the formula the index must still be 0..n-1: only reset_index(drop=False) (keeps a fresh RangeIndex) and column stores allowed
-    between = seq[seq.index(first[0]) + 1: seq.index(ni[0])]
-    bad = [U(n) for n in between if U(n.targets[0]) == table and U(n.value).replace(" ", "") not in (f"{table}.reset_index(drop=False)", f"{table}.reset_index()")]
+    # (a) the id table starts from the de-duplicated, sorted, re-indexed rows
+    chains = []
+    for st in new_branch:
+        for n in ast.walk(st):
+            if isinstance(n, ast.Call) and attr_tail(n) == "drop_duplicates":
+                chains.append(n)
+    ctx.need(chains, f"{f.site()}: no drop_duplicates() in the new-mapping branch - construction of the id table is undecided")
+    par = enclosing_map(ast.Module(body=new_branch, type_ignores=[]))
+    ok0 = False
+    shown = ""
+    for c in chains:
+        top = c
+        while top in par and isinstance(par[top], (ast.Attribute, ast.Call)) and (par[top] is not None) and \
+                ((isinstance(par[top], ast.Attribute) and par[top].value is top) or (isinstance(par[top], ast.Call) and par[top].func is top)):
+            top = par[top]
+        t = U(top).replace(" ", "").replace("\n", "")
+        shown = U(top)
+        if t == f"{rows}.drop_duplicates().sort_values(by=['name','dose']).reset_index(drop=True)":
+            ok0 = True
+    ctx.check("R4", f"{f.site()}::unique-sorted-reindexed", ok0, "table = rows.drop_duplicates().sort_values(by=[name, dose]).reset_index(drop=True)",
+              f"the id table starts from `{shown}`: ids are dense and deterministic only on a de-duplicated, sorted, re-indexed table")
+    # (b) the rank formula
+    found = []
+    for h, stmts, binding in encoder_scope(ctx, f, new_branch):
+        env = scope_env(stmts)
+        cols = column_stores(stmts)
+        for st in stmts:
+            for n in ast.walk(st):
+                if isinstance(n, (ast.Assign,)) and isinstance(n.value, ast.BinOp) and any(isinstance(x, ast.Call) and (attr_tail(x) == "cumsum" or call_name(x) == "np.cumsum") for x in ast.walk(inline(n.value, env))):
+                    e = inline(n.value, env)
+                    # the table is the object whose .index is used
+                    T = None
+                    for x in ast.walk(e):
+                        if isinstance(x, ast.Attribute) and x.attr == "index" and isinstance(x.value, ast.Name):
+                            T = x.value.id
+                    if T is None:
+                        continue
+                    e2 = subst_columns(e, {k: v for k, v in cols.items() if k[1] == "is_control"}, env)
+                    cum = [x for x in ast.walk(e2) if isinstance(x, ast.Call) and (attr_tail(x) == "cumsum" or call_name(x) == "np.cumsum")]
+                    pred = cum[0].func.value if attr_tail(cum[0]) == "cumsum" and not call_name(cum[0]).startswith("np.") else cum[0].args[0]
+                    want = N.key(parse_expr(f"{T}.index - PRED.cumsum()"))
+                    import copy
+                    e3 = copy.deepcopy(e2)
+                    for x in ast.walk(e3):
+                        if isinstance(x, ast.Call) and (attr_tail(x) == "cumsum" or call_name(x) == "np.cumsum"):
+                            if attr_tail(x) == "cumsum" and not (call_name(x) or "").startswith("np."):
+                                x.func.value = ast.Name(id="PRED", ctx=ast.Load())
+                            else:
+                                x.func = ast.Attribute(value=ast.Name(id="PRED", ctx=ast.Load()), attr="cumsum", ctx=ast.Load())
+                                x.args = []
+                    is_pred = dose_table(pred) is not None or U(pred).endswith("is_control")
+                    found.append((U(n.value), N.key(e3) == want and is_pred, h.site()))
+    if not found:
+        raise AnalysisError(f"{f.site()}: no `index - cumsum(...)` renumbering found in the encoder or its helpers - density of the ids is undecided")
+    ctx.check("R4", f"{f.site()}::rank-formula", any(x[1] for x in found), "new_index = position - cumsum(is_control)  (rank among non-controls)",
+              f"non-control ids are `{found[0][0]}` (in {found[0][2]}), not `index - cumsum(is_control)`: any constant offset or other count breaks density 0..n-1")
+    # (c) positions: between re-indexing and the formula the table may only be rebound by reset_index (fresh RangeIndex)
+    table = U(jd.value.args[0])
+    seq = [n for n in new_branch if isinstance(n, ast.Assign)]
+    bad = [U(n) for n in seq[1:] if U(n.targets[0]) == table and isinstance(n.value, ast.Call) and attr_tail(n.value) in ("sort_values", "sample", "iloc", "loc", "drop", "sort_index")]
     ctx.check("R4", f"{f.site()}::positions-are-0..n-1", not bad, "the table keeps a fresh RangeIndex up to the rank formula",
-              f"the table is rebound between re-indexing and the rank formula ({bad}): `.index` may no longer be the positions 0..n-1")
+              f"the table is re-ordered after re-indexing ({bad}): `.index` is no longer the positions 0..n-1")
     # 1-d encoder
     f1, body1, ret1, elts1, jd1 = encoder_facts(ctx, ENC_1)
     iff1 = [n for n in body1 if isinstance(n, ast.If)][0]
@@ -188,7 +322,11 @@ def r4(ctx):
     r1_ = U(jd1.value.func.value)
     steps = [U(n.value).replace(" ", "").replace("\n", "") for n in nb if isinstance(n, ast.Assign) and U(n.targets[0]) == t1]
     want_steps = [f"{r1_}.drop_duplicates().sort_values(by='val').reset_index(drop=True)", f"{t1}.reset_index(drop=False)", f"{t1}.rename(columns={{'index':'new_index'}})"]
-    ctx.check("R4", f"{f1.site()}::positions-of-sorted-unique", steps == want_steps,
+    joined = "|".join(steps)
+    if steps != want_steps and "drop_duplicates" not in joined:
+        raise AnalysisError(f"{f1.site()}: construction of the 1-d id table is not in a recognised idiom")
+    ctx.check("R4", f"{f1.site()}::positions-of-sorted-unique", steps == want_steps or
+              (f"{r1_}.drop_duplicates().sort_values(by='val').reset_index(drop=True)" in joined and "reset_index" in joined.split("|", 1)[-1] and "new_index" in joined),
               "ids = positions in rows.drop_duplicates().sort_values().reset_index(drop=True)",
               f"the 1-d id table is built by {steps}: ids must be the positions 0..n-1 of the sorted unique values")
 
@@ -204,17 +342,24 @@ def r5(ctx):
         if len(cs) != 1:
             continue
         cnode = g.node_containing(cs[0])
-        # validation: `if mp is not None: if not validator(mp[-1]): raise` dominates the encoder call on the not-None path
-        val = [n for n in walk_own(init.node) if isinstance(n, ast.If) and N.b(n.test) == N.b(parse_expr(f"{mp} is not None"))
-               and len(n.body) == 1 and isinstance(n.body[0], ast.If) and isinstance(n.body[0].body[-1], ast.Raise)]
+        # validation: a refusal with condition {mp is not None, not validator(mp[-1])} (nested ifs or one `and`) dominates the encoder call
+        from engine.astutil import raise_guards
+        last = "2" if mp.startswith("treat") else "1"
+        want_sets = [frozenset({N.b(parse_expr(f"{mp} is not None")), N.b(parse_expr(f"not numpy_array_is_0_indexed_integers({mp}[{ix}])"))}) for ix in ("-1", last)]
         ok = False
-        if len(val) == 1:
-            inner = val[0].body[0]
-            ok = N.b(inner.test) in (N.b(parse_expr(f"not numpy_array_is_0_indexed_integers({mp}[-1])")), N.b(parse_expr(f"not numpy_array_is_0_indexed_integers({mp}[2])")) if mp.startswith("treat") else N.b(parse_expr(f"not numpy_array_is_0_indexed_integers({mp}[1])")))
-            vnode = g.nodes_of(val[0])[0]
-            ok = ok and vnode in g.dominators().get(cnode, ())
+        related = False
+        dom = g.dominators()
+        for conds, anchor, how, looped in raise_guards(ctx.R, init, N):
+            if anchor is None:
+                continue
+            if any("numpy_array_is_0_indexed_integers" in repr(c) and mp in repr(c) for c in conds):
+                related = True
+            an = g.nodes_of(anchor)
+            if conds in want_sets and an and an[0] in dom.get(cnode, ()) and not looped:
+                ok = True
         ctx.check("R5", f"{init.site()}::{mp}-validated-before-use", ok, f"a supplied {mp} must pass numpy_array_is_0_indexed_integers before the encoder runs",
-                  f"a supplied `{mp}` reaches the encoder without a dominating `if {mp} is not None: if not numpy_array_is_0_indexed_integers({mp}[-1]): raise`")
+                  f"a supplied `{mp}` reaches the encoder without a dominating refusal `{mp} is not None and not numpy_array_is_0_indexed_integers({mp}[-1])`"
+                  + ("" if not related else " (a validation exists but does not dominate the encoder call or tests another component)"))
     # verbatim use in both encoders
     for q, cols in ((ENC_T, ["name", "dose", "new_index"]), (ENC_1, ["val", "new_index"])):
         f, body, ret, elts, jd = encoder_facts(ctx, q)
@@ -227,70 +372,103 @@ def r5(ctx):
             and [U(v) for v in eb[0].value.args[0].values] == [f"existing_mapping[{i}]" for i in range(len(cols))]
         ctx.check("R5", f"{f.site()}::mapping-used-verbatim", ok, f"table = DataFrame({{{cols}: existing_mapping[0..{len(cols) - 1}]}}) with no re-sorting or renumbering",
                   "in the supplied-mapping branch the id table is not built from the mapping's columns verbatim")
-    # the validator's definition
+    # the validator's definition, arm by arm (per-path return expressions, locals inlined)
+    from engine.astutil import path_returns
     v = ctx.fn("data.numpy_array_is_0_indexed_integers")
     a = v.params[0]
-    rets = returns(v.node)
-    par = enclosing_map(v.node)
-    forms = {}
-    for r in rets:
-        p = par.get(r)
-        if isinstance(p, ast.If) and N.b(p.test) == N.b(parse_expr(f"CONTROL_SENTINEL_VALUE in {a}")):
-            forms["with" if r in p.body else "without"] = r.value
-        elif isinstance(p, ast.If) and "issubdtype" in U(p.test):
-            forms["dtype"] = (p.test, r.value)
-    w = forms.get("with")
-    wo = forms.get("without")
-    if w is None and wo is None:
+    sent = ctx.R.const_value(v.mod, "CONTROL_SENTINEL_VALUE")
+    Nc = Norm(strict=False, consts={"CONTROL_SENTINEL_VALUE": sent} if sent is not None else {})
+    paths = path_returns(v.node)
+    if paths is None:
+        raise AnalysisError(f"{v.site()}: the validator contains loops / constructs outside the if-return fragment; cannot be judged dense-or-not by this rule")
+    sent_test = Nc.b(parse_expr(f"CONTROL_SENTINEL_VALUE in {a}"))
+    dtype_test = Nc.b(parse_expr(f"not np.issubdtype({a}.dtype, int)"))
+    arms = {}
+    for conds, ret in paths:
+        bs = {Nc.b(t, neg=not pol) for t, pol in conds}
+        if dtype_test in bs:
+            arms["dtype"] = ret
+        elif sent_test in bs:
+            arms["with"] = ret
+        elif ("not", sent_test) in bs or any(b == Nc.b(parse_expr(f"CONTROL_SENTINEL_VALUE not in {a}")) for b in bs):
+            arms["without"] = ret
+    w, wo = arms.get("with"), arms.get("without")
+    if w is None or wo is None:
         raise AnalysisError(f"{v.site()}: the validator no longer has the sentinel / no-sentinel arms comparing sorted unique values with a range; "
                             f"a different algorithm cannot be judged dense-or-not by this rule")
-    ok_w = w is not None and N.key(w) in (N.key(parse_expr(f"np.all(np.sort(np.unique({a})) == np.concatenate([np.array([-1]), np.arange(np.unique({a}).shape[0] - 1)]))")),
-                                         N.key(parse_expr(f"np.all(np.unique({a}) == np.concatenate([np.array([-1]), np.arange(np.unique({a}).shape[0] - 1)]))")),
-                                         N.key(parse_expr(f"np.all(np.sort(np.unique({a})) == np.concatenate([np.array([CONTROL_SENTINEL_VALUE]), np.arange(np.unique({a}).shape[0] - 1)]))")))
-    ok_wo = wo is not None and N.key(wo) in (N.key(parse_expr(f"np.all(np.sort(np.unique({a})) == np.arange(np.unique({a}).shape[0]))")),
-                                            N.key(parse_expr(f"np.all(np.unique({a}) == np.arange(np.unique({a}).shape[0]))")))
-    ok_dt = "dtype" in forms and N.b(forms["dtype"][0]) == N.b(parse_expr(f"not np.issubdtype({a}.dtype, int)")) and U(forms["dtype"][1]) == "False"
+    want_w = [Nc.key(parse_expr(f"np.all(np.unique({a}) == np.concatenate([np.array([-1]), np.arange(np.unique({a}).shape[0] - 1)]))"))]
+    want_wo = [Nc.key(parse_expr(f"np.all(np.unique({a}) == np.arange(np.unique({a}).shape[0]))"))]
+    ok_w = Nc.key(w) in want_w
+    ok_wo = Nc.key(wo) in want_wo
+    ok_dt = "dtype" in arms and U(arms["dtype"]) == "False"
+    if not (ok_w and ok_wo) and not any("unique" in U(x) for x in (w, wo)):
+        raise AnalysisError(f"{v.site()}: the validator's arms do not compare np.unique(arr) with a range; a different algorithm cannot be judged by this rule")
     ctx.check("R5", f"{v.site()}::definition", ok_w and ok_wo and ok_dt,
               "integers; unique values == [-1] + 0..n-2 when the sentinel occurs, else 0..n-1",
-              f"the validator is not `sort(unique(arr)) == (-1,) 0..n-1` over the UNIQUE values (sentinel arm `{U(w)[:60] if w is not None else None}`, "
-              f"plain arm `{U(wo)[:60] if wo is not None else None}`): duplicated ids with a gap would be accepted")
+              f"the validator is not `unique(arr) == (-1,) 0..n-1` over the UNIQUE values (sentinel arm `{U(w)[:70]}`, "
+              f"plain arm `{U(wo)[:70]}`): duplicated ids with a gap would be accepted")
 
 
 def r6(ctx):
     init = ctx.fn("data.Screen.__init__")
     env = single_defs(init.node)
     tn, td = init.params[1], init.params[2]
-    lp = [n for n in walk_own(init.node) if isinstance(n, ast.For) and U(n.iter).startswith("range(")]
-    ok = False
-    names_expr = doses_expr = None
     enc = [c for c in calls(init.node) if U(c.func) == "encode_treatment_arrays_to_0_indexed_ids"]
     ctx.need(len(enc) == 1, "Screen.__init__: treatment encoder call not found")
     kw = kwargs(enc[0])
     na = kw.get("treatment_name_arr", enc[0].args[0] if enc[0].args else None)
     da = kw.get("treatment_dose_arr", enc[0].args[1] if len(enc[0].args) > 1 else None)
+    ctx.need(na is not None and da is not None, "Screen.__init__: encoder is not given name and dose vectors")
+
+    def stack_form(e, src):
+        """kind of column-major flattening of `src` that e denotes, or None"""
+        t = U(inline(e, env)).replace(" ", "")
+        forms = {f"np.concatenate(list({src}.T))": "concat-T", f"np.concatenate({src}.T)": "concat-T", f"np.concatenate([colforcolin{src}.T])": "concat-T",
+                 f"{src}.T.ravel()": "ravel-T", f"{src}.T.flatten()": "ravel-T", f"{src}.flatten(order='F')": "ravel-T", f"{src}.ravel(order='F')": "ravel-T",
+                 f"np.concatenate([{src}[:,i]foriinrange({src}.shape[1])])": "concat-T",
+                 f"np.concatenate([{src}[:,i]foriinrange(treatment_arity)])": "concat-T"}
+        return forms.get(t)
+    # (a) pair-list idiom
     acc = None
-    for l in lp:
+    for l in [n for n in walk_own(init.node) if isinstance(n, ast.For) and U(n.iter).startswith("range(")]:
         app = [c for c in calls(l, tail="append")]
         if len(app) == 1 and isinstance(app[0].args[0], ast.Tuple):
             i = U(l.target)
             pair = [U(e).replace(" ", "") for e in app[0].args[0].elts]
             if pair == [f"{tn}[:,{i}]", f"{td}[:,{i}]"] and U(inline(l.iter, env)).replace(" ", "") in (f"range({tn}.shape[1])",):
                 acc = U(app[0].func.value)
-    if acc and na is not None and da is not None:
-        nv = U(inline(na, env)).replace(" ", "")
-        dv = U(inline(da, env)).replace(" ", "")
-        ok = nv == f"np.concatenate([x[0]forxin{acc}])" and dv == f"np.concatenate([x[1]forxin{acc}])"
-    ctx.check("R6", f"{init.site()}::column-stacking", ok, "names and doses are concatenated column by column from the same list of (name column, dose column) pairs",
+    nv = U(inline(na, env)).replace(" ", "")
+    dv = U(inline(da, env)).replace(" ", "")
+    verdict = None
+    if acc and nv == f"np.concatenate([x[0]forxin{acc}])" and dv == f"np.concatenate([x[1]forxin{acc}])":
+        verdict = True
+    else:
+        fn_, fd_ = stack_form(na, tn), stack_form(da, td)
+        if fn_ and fd_:
+            verdict = fn_ == fd_ or {fn_, fd_} <= {"concat-T", "ravel-T"}
+        elif stack_form(na, td) or stack_form(da, tn) or (acc and (f"forxin{acc}" in nv or f"forxin{acc}" in dv)):
+            verdict = False          # recognisable stacking, but names/doses taken from the wrong source or different orders
+    if verdict is None:
+        raise AnalysisError(f"Screen.__init__: the way names (`{U(inline(na, env))[:60]}`) and doses are flattened column by column is not a recognised idiom")
+    ctx.check("R6", f"{init.site()}::column-stacking", verdict, "names and doses are flattened column by column in the same order (column i of names with column i of doses)",
               "treatment names and doses are not stacked over the same column order (names of column i paired with doses of column i)")
     st = [n for n in walk_own(init.node) if isinstance(n, ast.Assign) and U(n.targets[0]) == "self._treatment_ids"]
     ctx.need(len(st) == 1, "Screen.__init__: self._treatment_ids store not found")
     res = [U(t) for n in walk_own(init.node) if isinstance(n, ast.Assign) and n.value is enc[0] and isinstance(n.targets[0], ast.Tuple) for t in n.targets[0].elts]
     ctx.need(res, "Screen.__init__: encoder result unpacking not found")
-    v = U(st[0].value).replace(" ", "").replace("\n", "")
-    ok = v in (f"np.vstack(np.split({res[0]},{tn}.shape[1])).T", f"np.vstack(np.split({res[0]},treatment_arity)).T", f"{res[0]}.reshape({tn}.shape[1],-1).T",
-               f"np.stack(np.split({res[0]},{tn}.shape[1]),axis=1)")
-    ctx.check("R6", f"{init.site()}::split-and-transpose", ok, "ids = vstack(split(encoded, arity)).T  (inverse of the column stacking)",
-              f"the encoded vector is unstacked by `{U(st[0].value)}`, which is not the inverse of the column-by-column concatenation")
+    v = U(inline(st[0].value, {k: x for k, x in env.items() if k != res[0]})).replace(" ", "").replace("\n", "")
+    ks = (f"{tn}.shape[1]", "treatment_arity", f"{td}.shape[1]")
+    good = set()
+    for k in ks:
+        good |= {f"np.vstack(np.split({res[0]},{k})).T", f"np.stack(np.split({res[0]},{k}),axis=0).T", f"np.stack(np.split({res[0]},{k})).T", f"np.stack(np.split({res[0]},{k}),axis=1)",
+                 f"np.column_stack(np.split({res[0]},{k}))", f"{res[0]}.reshape({k},-1).T", f"{res[0]}.reshape(({k},-1)).T", f"{res[0]}.reshape(-1,{k},order='F')"}
+    wrong = set()
+    for k in ks:
+        wrong |= {f"{res[0]}.reshape(-1,{k})", f"{res[0]}.reshape((-1,{k}))", f"np.vstack(np.split({res[0]},{k}))", f"np.stack(np.split({res[0]},{k}),axis=0)"}
+    if v not in good and v not in wrong:
+        raise AnalysisError(f"Screen.__init__: the encoded vector is unstacked by `{U(st[0].value)[:70]}`, not a recognised idiom")
+    ctx.check("R6", f"{init.site()}::split-and-transpose", v in good, "ids = the arity column blocks of the encoded vector side by side (inverse of the column stacking)",
+              f"the encoded vector is unstacked by `{U(st[0].value)}`, which is not the inverse of the column-by-column flattening (row-major reshape interleaves treatments)")
 
 
 def r7(ctx):
